@@ -113,7 +113,31 @@ def overlay_follow_through(ctx: Ctx) -> dict:
         files[f.name] = json.loads(f.read_text(encoding="utf-8"))
     files["zz_user_overlay.json"] = overlay
     rng = random.Random(ctx.seed + 18)
-    with synth.scratch_package(files, None, "c18ovl") as (root, pkg):
+    # a user bank file: a second entry for an existing German key, a bank of the new country QQ, and a
+    # compact v2 document - lookups must follow the effective (concatenated, expanded) list
+    bfiles = {}
+    for f in sorted((package_dir() / "bank_registry").glob("*.json")):
+        bfiles[f.name] = json.loads(f.read_text(encoding="utf-8"))
+    bfiles["zz_user_banks.json"] = [
+        {"country_code": "DE", "bank_code": "43060967", "bic": "ZZZZDEZZ", "name": "User Bank", "short_name": "UB",
+         "primary": True},
+        {"country_code": "QQ", "bank_code": "ABC", "bic": "QQQQDEQQXXX", "name": "Q Bank", "short_name": "Q",
+         "primary": False}]
+    bfiles["zz_user.v2.json"] = {"expand_from": "bank_codes", "expand_into": "bank_code", "entries": [
+        {"country_code": "QQ", "bic": "QQQQDEQQ", "name": "Q2", "short_name": "Q2", "bank_codes": ["ABD", "ABE"],
+         "primary": True}]}
+    with synth.scratch_package(files, bfiles, "c18ovl") as (root, pkg):
+        benv = ctx.frozen(banks=True, pkg=pkg, tag="overlayb")
+        lops = [{"op": "bic.lookup", "cc": cps(c), "code": cps(k)} for c, k in
+                (("DE", "43060967"), ("QQ", "ABC"), ("QQ", "ABD"), ("QQ", "ABE"), ("QQ", "ABF"), ("DE", "37040044"))]
+        lops += [{"op": "bic.reverse", "bic": cps(b)} for b in ("ZZZZDEZZ", "QQQQDEQQ", "GENODEM1GLS")]
+        lops += [{"op": "iban.bank", "t": cps("QQ" + gen.check_digits("QQ", k + "12345") + k + "12345")}
+                 for k in ("ABC", "ABD", "ABZ")]
+        lev = calls.execute(ctx, lops, "ovlb", extra_path=root)
+        calls.report(ctx, calls.validate(ctx, "TraceLookup", lev, benv, "ovlb"), None, keyfn)
+        if not any(e["op"] == "bic.lookup" and e["out"].get("cands", {}).get("k") == "ok"
+                   and len(e["out"]["cands"]["v"]) >= 2 for e in lev) and not ctx.violations:
+            raise MachineryError("bank overlay follow-through vacuous")
         env = ctx.frozen(banks=False, pkg=pkg, tag="overlay")
         table = {gen.cc_of(r): r for r in ctx.table(env)}
         base = {gen.cc_of(r): r for r in ctx.table(ctx.frozen(banks=False))}
